@@ -9,8 +9,18 @@ claim("C01",
       "Every bind (Statement.Allocate) in the scheduler is dominated on all paths — interprocedurally — by IsTaskAllocatable(node,task)==true for the same node and task, the fit test compares against Idle only and covers every dimension, terminating/pipelined pods are charged as the property demands, add/remove are inverses, a failed bind is undone. Structural necessary conditions, decided for every site in the tree; level 'other' because the numeric sums and multi-cycle histories are not decided.",
       NOTE)
 
+claim("C02",
+      "inverse-effect pairing per status arm (SSA effect extraction), struct/vector lock-step, value-fact summaries of the fit predicates with sign analysis of the room formula, field-flow justification of the bind-vs-nominate flag, must-pass-through",
+      "The per-group memory counters and whole-GPU side effects of add/remove are inverse multisets per status arm with their vector twins; a group becomes a candidate only behind IsTaskFitOnGpuGroup whose true result implies used!=0, room and not-all-releasing; the room formulas read total, allocated, (releasing) and request with the required signs; an immediate bind needs EnoughIdleResourcesOnGpu or a fresh idle device; exactly the requested number of groups is returned, stored into the pod before placement and cleared on failure; a shared allocation carries 0 whole GPUs. Structural necessary conditions; numeric reachability of counter states is not decided.",
+      NOTE)
+
+claim("C14",
+      "inverse-effect pairing of 11 add/remove sibling pairs under identical status predicates, struct/vector lock-step (DUAL), instruction-order must-pass-through, who-may-write tables over SSA stores/map updates/mutating method calls, constant folding of the status predicates",
+      "Every incremental counter update has an exact inverse under the same status predicate (node, shared-GPU, job, index, pod-set, queue handlers, Resource/BaseResource/Vector arithmetic); struct and vector representations move together; UpdateTaskStatus is reset→store→add and NodeInfo.UpdateTask is remove→add; the accounting fields are written only by the reviewed accounting functions; node-dependent accepted resources are recomputed before being charged; the status groups form the required lattice. Equality with recomputation over all histories is not decided.",
+      NOTE)
+
 NA = {
     "C15": "quantifies over infinite executions of a closed system (lasso freedom); no static shape of the code settles it. Its three guards (strict saturation comparison with multiplier >= 1, strictly-lower priority for preempt, consolidation only when all victims are re-placed) are decided as clauses of C07 and C06.",
 }
-for _p in ["C02","C03","C04","C05","C06","C07","C08","C09","C10","C11","C12","C13","C14","C16","C17","C18","C19","C20"]:
+for _p in ["C03","C04","C05","C06","C07","C08","C09","C10","C11","C12","C13","C16","C17","C18","C19","C20"]:
     NA.setdefault(_p, "check under construction in this session (see DESIGN.md §4 for the planned static obligations); not claimed until the check exists")
